@@ -3,7 +3,8 @@ import os, json, struct, math
 import vf
 
 PROP = "C12"
-THEOREMS = ["cbor_roundtrip", "cbor_canonical", "cbor_decode_injective", "cbor_enc_map_order_free", "cbor_noncanonical_rejected", "cbor_decode_normal",
+THEOREMS = ["cbor_roundtrip", "cbor_canonical", "cbor_decode_injective", "cbor_depth_129_encodes_but_is_rejected", "cbor_budget_only_removes",
+            "cbor_budget_transparent", "cbor_enc_map_order_free", "cbor_noncanonical_rejected", "cbor_decode_normal",
             "cbor_enc_wf", "cbor_reject_trailing", "cbor_reject_tag", "cbor_reject_indefinite", "cbor_reject_nonminimal_head",
             "cbor_reject_f16_nan_payload", "cbor_reject_integral_float", "cbor_reject_wide_float64", "cbor_reject_wide_float32",
             "narrow16_exact", "narrow32_exact", "cbor_decode_never_out_of_fuel",
@@ -713,8 +714,10 @@ def run(tier, seed, replay=None):
         "against the half crate for all 2^16 halves and against Rust casts on sampled f32/f64 patterns each run",
         "the model is executed through Coq extraction (ExtrOcamlBasic only) + props/c12_driver.ml; a sample of cases is re-evaluated "
         "by the kernel (vm_compute) each run and must agree with the extracted model",
-        "Vec::with_capacity aborts on huge declared lengths are C13's subject: byte inputs whose reachable array/map head declares "
-        "more than 2^16 items are skipped (counted in skipped_alloc_guard)",
+        "documented domain of decode_value (commit 65efcf1): nesting depth <= MAX_DECODE_DEPTH = 128; deeper values encode but are "
+        "rejected (theorem cbor_depth_129_encodes_but_is_rejected; wf_value requires vdepth <= 128); the element budget is modelled "
+        "(dec_value_b) and proved transparent on accepted inputs (cbor_budget_only_removes / cbor_budget_transparent)",
+        "huge declared array/map lengths are fed to the real decoder too (the element budget rejects them before any allocation)",
         "exercised by the implementation-side oracle only, not modelled: WalReceiptCorrelationRecord, retained IngressEnvelope v2 "
         "(+ v1 legacy upgrade), WalRuntimeStateDeltaRecord/provenance_codec, MBUS frames v1/v2, ELOG; Edict canonical CBOR is compared "
         "with the float-free fragment of the ABI model (its depth/node budgets are not modelled); serde DTO layer (kernel_port), "
@@ -771,6 +774,9 @@ def run(tier, seed, replay=None):
                 sab, b = "valid", py_enc(gen_value(rng, rng.choice([1, 2, 3, 4]), allow_bad=False), rng)
             elif mode == 3:
                 sab, b = "mutate", mutate(rng, py_enc(v, rng))
+            elif i % 40 == 4:
+                hd = rng.choice([0x9a, 0x9b, 0xba, 0xbb, 0x5b, 0x7b, 0x9b])
+                sab, b = "huge-length", bytes([hd]) + bytes([rng.choice([0, 0xff, rng.getrandbits(8)]) for _ in range(rng.choice([4, 8, 9, 12]))])
             else:
                 sab, b = "random", bytes([rng.choice([0x18, 0x19, 0x38, 0x58, 0x78, 0x81, 0x82, 0x98, 0xa1, 0xa2, 0xb8, 0xf9, 0xfa, 0xfb,
                                                        rng.getrandbits(8)])] + [rng.getrandbits(8) for _ in range(rng.randint(0, 11))])
@@ -785,6 +791,31 @@ def run(tier, seed, replay=None):
         ecases += ["ev=" + show(v) for v in vals[:(60 if quick else 600)]]
         cases += ecases
         r.cov["edict_cases"] = len(ecases)
+        # nesting depth boundary (MAX_DECODE_DEPTH = 128) and element-budget edge cases; ABI only
+        def nest(k, leaf, kind):
+            v = leaf
+            for i in range(k):
+                v = ("a", [v]) if kind == "a" or (kind == "x" and i % 2) else ("m", [(("i", 0), v)])
+            return v
+        deep = []
+        for k in (126, 127, 128, 129, 130, 200):
+            for kind in "amx":
+                for leaf in (("i", 0), ("a", []), ("m", []), ("f", 0x3ff8000000000000)):
+                    deep.append("v=" + show(nest(k, leaf, kind)))
+            deep.append("v=" + show(("a", [nest(k, ("N",), "a"), ("i", 1)])))
+            deep.append("v=" + show(("m", [(nest(k - 1, ("i", 1), "a"), ("N",))])))        # depth through a map KEY
+            deep.append("b=" + ("81" * k + "00"))
+            deep.append("b=" + ("a100" * k + "f6"))
+            deep.append("b=" + ("81" * k + "80"))
+            deep.append("b=" + ("81" * k + "a0"))
+            deep.append("b=" + ("81" * k))
+            deep.append("b=" + ("9f" * 1 + "81" * k + "00"))
+        for bb in ("8200", "820000", "83000000", "8400c0", "84c000", "8500", "98190000", "a20000", "a2000000", "a200000000", "a300",
+                   "8281008100", "828100", "9900ff00", "b900ff00", "8a00010203040506070809", "8b00010203040506070809",
+                   "82820000820000", "8282000082000000", "a182000000", "a18200", "85" + "00" * 4, "85" + "00" * 5, "85" + "c0" * 5):
+            deep.append("b=" + bb)
+        cases += deep
+        r.cov["depth_and_budget_boundary_cases"] = len(deep)
         # fixed little-endian records / frames
         rcases = gen_record_cases(rng, 40 if quick else 400)
         # WalRuntimeStateDeltaRecord: valid payloads come from the harness (public constructors), then mutations
@@ -942,10 +973,12 @@ def run(tier, seed, replay=None):
 
 MANIFEST = {
     "category": "proof",
-    "text": ("Coq theorems (no axioms, 24 pinned) over an executable, byte-exact model of the ABI canonical CBOR codec "
+    "text": ("Coq theorems (no axioms, 27 pinned) over an executable, byte-exact model of the ABI canonical CBOR codec "
              "(echo-wasm-abi/src/canonical.rs: value tree, integers in [-2^64,2^64), floats as bit patterns with exact f16/f32/f64 "
-             "width selection and the integral-float-to-integer rule, UTF-8 validity, maps sorted by encoded key bytes): "
-             "cbor_roundtrip (decode(encode v) = norm v for every well-formed value), cbor_canonical (for EVERY byte string: accepted "
+             "width selection and the integral-float-to-integer rule, UTF-8 validity, maps sorted by encoded key bytes, the decoder's "
+             "depth limit MAX_DECODE_DEPTH = 128 and its element budget): "
+             "cbor_roundtrip (decode(encode v) = norm v for every well-formed value of nesting depth <= 128, the documented domain; "
+             "cbor_depth_129_encodes_but_is_rejected shows the boundary is exact), cbor_canonical (for EVERY byte string: accepted "
              "=> re-encodes to exactly those bytes), decode injectivity, encoding independent of map entry order, decoder output is "
              "in normal form, every other spelling of a value is rejected, and rejection lemmas per class (trailing bytes, tags, "
              "indefinite lengths, non-minimal heads, wide floats, integral floats, NaN payloads); plus generic fmt_roundtrip / "
@@ -966,7 +999,9 @@ MANIFEST = {
              "WalReceiptCorrelationRecord, retained IngressEnvelope v2 (+v1 legacy upgrade), WalRuntimeStateDeltaRecord/provenance_codec, "
              "MBUS frames v1/v2 (round trip + writer determinism only, as the property scopes them), ELOG; Edict canonical CBOR is "
              "compared with the float-free fragment of the ABI model (depth/node budgets not modelled). Outside: serde DTO layer "
-             "(kernel_port), scene CBOR, columnar snapshots, Vec::with_capacity aborts on huge declared lengths (C13). Found and fixed "
+             "(kernel_port), scene CBOR, columnar snapshots. Domain: values nested deeper than 128 encode but are rejected by decode_value "
+             "(Decode(\"nesting too deep\"), /repo 65efcf1) - wf_value requires depth <= 128; the decoder's element budget is modelled and "
+             "proved transparent on accepted inputs (cbor_budget_only_removes / cbor_budget_transparent). Found and fixed "
              "while building: f16 NaN payloads accepted (f8fd569), integers below i64::MIN not decodable (35fff59), integral floats "
              ">= 2^64 truncated by the encoder (50eacdd), StrandForkRecord decode normalising writer-head order."),
 }
